@@ -962,6 +962,9 @@ class EClass(EClassifier):
                 if key not in names and isinstance(value,
                                                    (EValue, ECollection)):
                     del instance.__dict__[key]
+                    # ... nor the mark that it was set: the feature may come
+                    # back, and then it has never been set on this instance
+                    instance._isset.pop(value.feature, None)
 
     def __create_fun(self, eoperation):
         name = eoperation.normalized_name()
